@@ -136,6 +136,30 @@ let c20_judge c obs =
     "bad " ^ (match c with L (A "auth" :: _) -> "auth-gate" | L (A "ovr" :: _) -> "method-override" | L (A "wrap" :: _) -> "wrapper-order" | _ -> "wrapped-handler-in-chain")
     ^ " expected=" ^ to_string e
 
+(* ---------------- C17 ---------------- *)
+let c17_model = function
+  | L [A "clean"; p] -> L [A "clean"; sstr (clean_rooted (str p))]
+  | L (A "get" :: _) -> L [A "judge-only"]
+  | x -> failwith ("c17: bad case " ^ to_string x)
+let ends_with suf s = let ls = String.length s and lf = String.length suf in ls >= lf && String.sub s (ls - lf) lf = suf
+let ascii_of s = String.concat "" (List.map (fun c -> let x = int_of_n c in if x < 128 then String.make 1 (Char.chr x) else "?") s)
+let c17_judge c obs =
+  match c, obs with
+  | L [A "clean"; p], _ ->
+    let e = L [A "clean"; sstr (clean_rooted (str p))] in
+    if to_string e = to_string obs then "ok" else "bad path-clean-model expected=" ^ to_string e
+  | L [A "get"; A kind; _], L [A "get"; A st; id] ->
+    (match id with
+     | L [A "out"; f] -> "bad serves-outside-root file=" ^ to_string f ^ " status=" ^ st
+     | L [A "in"; rel] ->
+       let rel = ascii_of (str rel) in
+       if kind = "files" && st = "200" && not (ends_with ".css" rel || ends_with ".js" rel) then "bad extension-filter-bypassed served=" ^ rel
+       else if kind = "one" && rel <> "a.css" then "bad single-file-handler-serves-another-file served=" ^ rel
+       else "ok"
+     | L [A "other"; _] -> if kind = "files" && st = "200" then "bad extension-filter-bypassed served=listing-or-index" else "ok"
+     | _ -> "bad observation-shape")
+  | _ -> "bad observation-shape"
+
 (* judge by spec equality: the observation must be exactly what the spec function yields *)
 let judge_eq spec c obs =
   let e = to_string (spec c) in
@@ -146,6 +170,7 @@ let rec model_of p = match p with
   | "C11" -> c11_model
   | "C08" -> c08_model
   | "C20" -> c20_run false
+  | "C17" -> c17_model
   | "C16" -> C16.model
   | "C15" -> C15.model
   | "C04" | "C05" | "C12" | "C09" | "C10" -> Rp.model
@@ -160,6 +185,7 @@ let judge_of = function
   | "C11" -> judge_eq c11_spec
   | "C08" -> c08_judge
   | "C20" -> c20_judge
+  | "C17" -> c17_judge
   | "C16" -> C16.judge
   | "C15" -> C15.judge
   | "C12" -> Rp.c12_judge
